@@ -337,6 +337,36 @@ def replay(cex):
     Jd = J if 'twopl' in flags else spec.Inst(J.na, J.ns, J.np, J.nl, J.prefs, J.plec, None, J.plq, J.puq, J.llq, J.lt, J.luq)
     notes = []
     bad = False
+    if 'stab' in flags:
+        # post-solve state with the counterexample's values forced (no feasibility needed for printing)
+        import os, shutil, tempfile
+        ns = repo.load('real')
+        tmp = tempfile.mkdtemp(prefix='vf_c11r_')
+        try:
+            path = os.path.join(tmp, 'i.txt')
+            with open(path, 'w') as f:
+                f.write(spec.inst_to_text(I))
+            s = ns.solver.Solver(['-f', path, '-na', str(I.na)] + ['-' + f_ for f_ in sorted(flags)])
+            s.solve()
+            for row in s.model.pairs:
+                for pr in row:
+                    pr.lp_var.varValue = float(pin.get((pr.studentID, pr.projectID), 0))
+            s.model.pulp_status = 'Optimal'
+            for getter in ('get_results_short', 'get_results_long'):
+                try:
+                    prs = rp.parse_results(getattr(s, getter)())
+                except Exception as e:  # noqa
+                    return True, 'getter raised %r' % (e,)
+                Is = I
+                xm = spec.x_from_matching_line(Is, prs['matching'])
+                want = spec.stable(Is, xm, P)
+                if prs['stability_correct'] != str(want):
+                    bad = True
+                    notes.append('%s: matching %s printed stability_correct: %s, blocking-pair test says %s' % (getter, prs['matching'], prs['stability_correct'], want))
+        finally:
+            shutil.rmtree(tmp, ignore_errors=True)
+        if bad:
+            return True, 'instance:\n%s\nflags %s values %s\n%s' % (spec.inst_to_text(I, trailer=False), sorted(flags), sorted(k for k, v in pin.items() if v), '\n'.join(notes))
     for getter in ('get_results_short', 'get_results_long'):
         out = rp.real_solve(J, flags, [], pin_x=pin, getter=getter, extra_calls=['get_results_long', 'get_results_short'])
         if out['exc']:
